@@ -550,6 +550,16 @@ FIXED = [
     ('let(x => [1, 2]) -> $x.select($ + $x.len())', {}, {}, [3, 4]),
     ('[[1, 2], [3]].select($.select($ * 2))', {}, {}, [[2, 4], [6]]),
     ('def(fact, switch($ < 2 => 1, true => $ * fact($ - 1))) -> fact(5)', {}, {}, 120),
+    # def() defines a function: method-call syntax keeps meaning the library's methods
+    ('def(len, 42) -> [1, 2, 3].len()', {}, {}, 3),
+    ('def(first, 0) -> [5, 6].first()', {}, {}, 5),
+    ('def(len, 42) -> [len(), [1].len()]', {}, {}, [42, 1]),
+    ('def(sum, $ + 100) -> [[1, 2].sum(), sum(1)]', {}, {}, [3, 101]),
+    ('def(toUpper, 7) -> $.name.toUpper()', {'name': 'ab'}, {}, 'AB'),
+]
+FIXED_ERRORS = [
+    # programs that must fail: a def'd name is not a method of values
+    'def(sq, $ * $) -> 3.sq()', 'def(twice, [$, $]) -> [1].twice()', "def(shout, $ + '!') -> 'a'.shout()",
 ]
 
 
@@ -652,6 +662,16 @@ def run_shard(spec, rec):
                         text, doc, got, want), {'kind': 'fixed', 'text': text})
                 else:
                     rec.count('agree.value')
+            for text in FIXED_ERRORS:
+                got = mon.run(text, {}, {})
+                rec.count('programs')
+                rec.count('fixed.programs')
+                rec.case((text, 'must-fail'), nontrivial=True)
+                if got[0] != 'error':
+                    rec.violation('evaluation-differs-from-language-reference:fixed', '%s gives %r, a method of that name does not exist' % (
+                        text, got), {'kind': 'fixed', 'text': text})
+                else:
+                    rec.count('agree.error')
             from yaql import legacy as ylegacy
             worlds = {'delegates': [(yq.engine(allow_delegates=True), yaql.create_context(delegates=True))],
                       'legacy': [(ylegacy.YaqlFactory().create(), ylegacy.create_context()), (yq.engine(), ylegacy.create_context())]}
